@@ -122,11 +122,18 @@ def gen_e4(rng):
     steps = []
     fixed_inner = rng.random() < 0.6          # same worker environment for every size: the executor is resized, not re-created
     for _ in range(rng.randint(2, 5)):
-        kind = rng.choice(["call", "call", "call", "empty", "with_nocall", "with_calls"])
+        kind = rng.choice(["call", "call", "call", "empty", "with_nocall", "with_calls", "with_intruder"])
         nj = rng.choice([1, 2, 2, 3, 4, 4, 5, 6, -1, -2])
         n = rng.choice([2, 4, 7, 10, 14])
         steps.append({"kind": kind, "n_jobs": nj, "n": n, "dur": [rng.choice([0.0, 0.01, 0.2, 0.2, 1.0]) for _ in range(n)],
                       "gap": rng.choice([0.0, 0.0, 0.05, 2.0, 400.0])})
+        if kind == "with_intruder":
+            # inside the with-block of one Parallel object, ANOTHER Parallel object with another n_jobs is called in between
+            # (both name their backend themselves: objects created under one parallel_config(backend=...) share a single
+            # backend instance, which is another matter; 3..6 jobs on 4 CPUs give the same worker environment, so the shared
+            # executor is resized; 2 gives another one, so it is replaced)
+            steps[-1]["n_jobs"] = rng.choice([3, 4, 5, 6])
+            steps[-1]["intruder_n_jobs"] = rng.choice([2, 3, 4, 5, 6])
     return {"e4": True, "steps": steps, "fixed_inner": fixed_inner, "batch_size": rng.choice([1, 1, 2, "auto"]),
             "strategy": dict(rng.choice(ds.STRATEGIES), **{"p_jump": 0.0}), "sched_seed": rng.randrange(1 << 31)}
 
@@ -260,7 +267,7 @@ def run_e4(case):
         c = 0
         for st in case["steps"]:
             kw = dict(n_jobs=st["n_jobs"], backend="loky", batch_size=case["batch_size"])
-            cm = parallel_config(backend="loky", inner_max_num_threads=1) if case["fixed_inner"] else None
+            cm = parallel_config(backend="loky", inner_max_num_threads=1) if case["fixed_inner"] and st["kind"] != "with_intruder" else None
             if cm is not None:
                 cm.__enter__()
                 kw.pop("backend")
@@ -277,6 +284,15 @@ def run_e4(case):
                 elif st["kind"] == "with_nocall":
                     with Parallel(**kw):
                         s.yp("with_nocall")
+                elif st["kind"] == "with_intruder":
+                    with Parallel(**kw) as p:
+                        rec = {"c": c, "exp": exp, "kind": st["kind"]}; recs.append(rec)
+                        one_call(p, c, st, rec); c += 1
+                        kw2 = dict(kw, n_jobs=st["intruder_n_jobs"])
+                        rec = {"c": c, "exp": st["intruder_n_jobs"], "kind": "intruder"}; recs.append(rec)
+                        one_call(Parallel(**kw2), c, st, rec); c += 1
+                        rec = {"c": c, "exp": exp, "kind": "with_after_intruder"}; recs.append(rec)
+                        one_call(p, c, st, rec); c += 1
                 else:
                     with Parallel(**kw) as p:
                         for _ in range(2):
@@ -302,12 +318,13 @@ def run_e4(case):
             c = r_.get("c")
             if r_.get("outcome") != "ok":
                 verdict = V("unexpected_exception", "loky call %s (%s, n_jobs resolves to %d): %s" % (c, r_["kind"], r_["exp"], r_.get("outcome")),
-                            type=str(r_.get("outcome")).split(":")[1] if ":" in str(r_.get("outcome")) else "?", tier="real_loky_executor")
+                            type=str(r_.get("outcome")).split(":")[1] if ":" in str(r_.get("outcome")) else "?", tier="real_loky_executor",
+                            after_other_object_resized_the_executor=(r_["kind"] == "with_after_intruder"))
                 break
             if W4["hi"].get(c, 0) > r_["exp"]:
-                verdict = V("too_many_running", "loky call %d of history %s: %d tasks ran simultaneously in %d worker processes, n_jobs "
-                            "resolves to %d" % (c, [(st["kind"], st["n_jobs"]) for st in case["steps"]], W4["hi"][c], len(W4["pids"][c]), r_["exp"]),
-                            tier="real_loky_executor")
+                verdict = V("too_many_running", "loky call %d (%s) of history %s: %d tasks ran simultaneously in %d worker processes, n_jobs "
+                            "resolves to %d" % (c, r_["kind"], [(st["kind"], st["n_jobs"], st.get("intruder_n_jobs")) for st in case["steps"]], W4["hi"][c], len(W4["pids"][c]), r_["exp"]),
+                            tier="real_loky_executor", after_other_object_resized_the_executor=(r_["kind"] == "with_after_intruder"))
                 break
             if r_["exp"] > 1 and W4["alive_hi"].get(c, 0) > r_["exp"]:     # (n_jobs=1 runs in the caller and leaves idle workers alone)
                 verdict = V("too_many_workers", "loky call %d of history %s: %d worker processes alive while its tasks ran, n_jobs "
